@@ -103,6 +103,12 @@ def run(ctx):
                 cfgd["batch_size"] = rng.choice([1, 2, 3])
                 D = max(1, ecc // 2)
             graph = G.make_graph(gd, cfgd)
+            # the bit-level model of the encoded action costs ~ (bits per state) per state and step: very wide codes of long states get shallower balls
+            # (thorough tier: two model-evaluation shards ran for more than an hour each on such cases)
+            bits_ = len(gd["central"]) * (int(graph.string_encoder.w) if graph.string_encoder is not None else 1)
+            if bits_ > 512 and D > max(2, 20000 // bits_):
+                D = max(2, 20000 // bits_)
+                ctx.count("ball_depth_capped_for_wide_codes")
             ball = graph.bfs(max_diameter=D, return_all_hashes=True)
             Deff = len(ball.layer_sizes) - 1
             qs = P.query_states(rng, gd, layers, dist, Deff, ctx.budget(4, 7))
